@@ -73,6 +73,7 @@ fn random(a: &Args) {
     let (mut nsys, mut nev, mut ndisp, mut max_held, mut releases, mut stalls, mut npan) = (0, 0, 0, 0, 0, 0, 0);
     let mut samples = Vec::new();
     for k in 0..count {
+        shredh::unwind::set(rng.gen_bool(a.num("punwind", 0.08)));
         let mut cfg = base.clone();
         cfg.n_res = rng.gen_range(2..=base.n_res.max(2));
         // now and then a funnel program: groups filled to the capacity limit
@@ -101,8 +102,15 @@ fn random(a: &Args) {
         // systems that are followed by at least two others in their group (top-level plan): what a panic
         // leaves behind in such a group is what the next dispatch runs
         let fronts: Vec<usize> = {
-            let (st, _) = r.rec.layout_gids(&r.dispatcher.as_ref().unwrap().verif_layout());
-            st.iter().flatten().filter(|g| g.len() >= 3).flat_map(|g| g[..g.len() - 2].to_vec()).filter(|g| *g != 0).collect()
+            let (st, tl) = r.rec.layout_gids(&r.dispatcher.as_ref().unwrap().verif_layout());
+            // (the thread-local list is such a group too)
+            st.iter().flatten().chain(std::iter::once(&tl)).filter(|g| g.len() >= 3).flat_map(|g| g[..g.len() - 2].to_vec()).filter(|g| *g != 0).collect()
+        };
+        // systems inside a batch that is dispatched more than once per outer dispatch: a panic in a round
+        // that is not the last one leaves rounds undone
+        let repeated: Vec<usize> = {
+            let inners: Vec<usize> = r.rec.sys.iter().filter(|s| s.kind == "batch" && s.n >= 2).map(|s| s.inner).collect();
+            r.rec.sys.iter().filter(|s| s.addr != 0 && inners.contains(&s.builder)).map(|s| s.gid).collect()
         };
         let mut i = 0;
         let mut last_panicked = false;
@@ -120,6 +128,8 @@ fn random(a: &Args) {
                     panics.push(*tls.choose(&mut rng).unwrap());
                 } else if !fronts.is_empty() && rng.gen_bool(0.35) {
                     panics.push(*fronts.choose(&mut rng).unwrap());
+                } else if !repeated.is_empty() && rng.gen_bool(0.4) {
+                    panics.push(*repeated.choose(&mut rng).unwrap());
                 } else {
                     panics.push(*all_gids.choose(&mut rng).unwrap());
                 }
@@ -238,6 +248,7 @@ fn lifecycle_cmd(a: &Args) {
     let mut samples = Vec::new();
     let mut maxdepth = 0;
     for k in 0..count {
+        shredh::unwind::set(rng.gen_bool(a.num("punwind", 0.12)));
         let mut cfg = base.clone();
         cfg.n_res = rng.gen_range(2..=base.n_res.max(2));
         let prog = gen_prog(&mut rng, &cfg, 0, "");
@@ -303,6 +314,7 @@ fn async_cmd(a: &Args) {
     let (mut nsys, mut nev, mut ncall) = (0usize, 0usize, 0usize);
     let mut samples = Vec::new();
     for k in 0..count {
+        shredh::unwind::set(rng.gen_bool(a.num("punwind", 0.12)));
         let mut cfg = base.clone();
         cfg.n_res = rng.gen_range(2..=base.n_res.max(2));
         let prog = gen_prog(&mut rng, &cfg, 0, "");
